@@ -13,7 +13,7 @@ import numpy as np
 
 LEVEL = 'exploration'
 ASSUMPTIONS = [
-    'catalogue of 30 parameter configs (all four kinds, singleton / negative / huge / tiny ranges, LINEAR/LOG/REVERSE_LOG, >10 discrete values, defaults incl. falsy ones)',
+    'catalogue of 32 parameter configs (all four kinds, singleton / negative / huge / tiny ranges, LINEAR/LOG/REVERSE_LOG, >10 discrete values, defaults incl. falsy ones)',
     'an algorithm may refuse a configuration with an error; refusals are tallied per designer and a designer that refuses everything is listed as vacuous',
     'numpy random sources are owned: pinned seed, plus every single extreme-draw deviation among the first N draws (N in coverage); jax PRNG streams cannot be scripted, their seed is an enumerated configuration value',
     'GP designers (thorough tier only) run on top of a stand-in for the equinox package (installed equinox does not import on the installed jax)',
@@ -37,6 +37,7 @@ def catalogue():
       'bool': ss.get('p'), 'bool2': ss.get('p'),
       'dlogtiny': F('p', bounds=(1e-200, 1e-190), scale_type=S.LOG), 'dloghuge': F('p', bounds=(1e160, 1e170), scale_type=S.LOG),
       'drlogtiny': F('p', bounds=(1e-200, 1e-190), scale_type=S.REVERSE_LOG), 'drloghuge': F('p', bounds=(1e160, 1e170), scale_type=S.REVERSE_LOG),
+      'x3c': F('p', feasible_values=[1.0, 2.0, 10.0]), 'x3d': F('p', feasible_values=[1.0, 5.0, 10.0]),    # look-alikes: same range and count
       'ibig': F('p', bounds=(16777210, 16777219)), 'inegbig': F('p', bounds=(-1000000090, -1000000001)),   # bounds float32 cannot represent
       'dlog0': F('p', bounds=(0.0, 1.0), scale_type=S.LOG),             # log scale with lower bound 0: must be refused or handled
       'd01defout': F('p', bounds=(0.0, 1.0), default_value=5.0),         # default outside the bounds
